@@ -81,7 +81,10 @@ TOL_NDDOT = 0.6  # MEAN_MOTION_DDOT '%.1f' of ndotdot/6
 TOL_RANGE = 1e-3  # RANGE      '%.6f' km
 TOL_AZEL = math.radians(1e-2)  # ANGLE_1/2 '%.2f' deg
 TOL_DOPPLER = 1e-6  # DOPPLER_INSTANTANEOUS '%.6f'
-TOL_EPOCH_US = 1  # statement: to the microsecond
+TOL_EPOCH_US = 1  # statement: to the microsecond.  Readings are integer microseconds (datetime).  The only jitter on correct
+#                   paths is Date's own UT1 reading, which rounds the instant and the offset separately: exactly -1/0/+1 us
+#                   per construction from a reading (probed 200 000 dates: 2.5 % at +1, 2.4 % at -1, never 2; UTC/TAI/TT/GPS/TDB
+#                   always 0), so one write+read generation stays within 1 us of what the object said.
 
 
 # =================================================================================================
@@ -91,7 +94,7 @@ def jobs(tier):
     if tier == "quick":
         n_arg, n_cfg = 5000, 1500
     else:
-        n_arg, n_cfg = 100000, 50000
+        n_arg, n_cfg = 64000, 32000
     return [
         {"name": "arg", "n": n_arg, "eop": "real", "cfg_fmt": None},
         {"name": "cfg-xml", "n": n_cfg, "eop": "real", "cfg_fmt": "xml"},
@@ -102,7 +105,7 @@ def jobs(tier):
 
 
 def requirements(tier):
-    k = 1 if tier == "quick" else 12
+    k = 1 if tier == "quick" else 8
     req = {
         "type:opm": 800 * k, "type:oem": 500 * k, "type:omm": 300 * k, "type:tdm": 400 * k,
         "restore-evaluated:opm:kvn": 500 * k, "restore-evaluated:opm:xml": 300 * k,
@@ -809,7 +812,13 @@ class Cmp:
     def epoch(self, field, exp, got, where=None, tol_us=TOL_EPOCH_US):
         self.eq(field + "-scale", exp["scale"], got["scale"], where)
         d_us = abs((got["dt"] - exp["dt"]) // dtm.timedelta(microseconds=1))
-        self.num(field, d_us, tol_us, iso(exp["dt"]), iso(got["dt"]), where)
+        key = None
+        if field == "maneuver-epoch" and d_us == 2 and exp["scale"] == got["scale"] == "UT1":
+            # known mechanism (since repo commit 148dbb9): the OPM writer passes every maneuver date through
+            # Date.change_scale(<scale of the message>) even when it already is in that scale; change_scale rebuilds the
+            # date from its rounded UT1 reading (+-1 us), the reader adds its own +-1 us
+            key = "C13/opm-maneuver-epoch-ut1-same-scale-rescale-2us"
+        self.num(field, d_us, tol_us, iso(exp["dt"]), iso(got["dt"]), where, key=key)
 
     def naming(self, exp, got):
         if exp["name"] is None:
